@@ -32,7 +32,7 @@ MUTATING = {"type_rename", "mk_group", "mk_object", "add_data", "set_values", "r
 
 
 def floors(tier):
-    return {"C09.collateral": 3000, "bracketed-ops": 800, "C09.noop-changed": 60, "op:remove": 30, "op:copy": 30, "op:move": 30, "op:set_values": 30, "drill-ops": 60, "op:dup_uid": 40}
+    return {"C09.collateral": 3000, "bracketed-ops": 800, "C09.noop-changed": 60, "op:remove": 30, "op:copy": 30, "op:move": 30, "op:set_values": 30, "drill-ops": 60, "drill-type-cases": 8, "op:dup_uid": 40}
 
 
 def gen_cases(tier, seed):
@@ -46,7 +46,91 @@ def gen_cases(tier, seed):
         for op in DRILL_OPS:
             for version in (2.0, 2.1):
                 cases.append({"kind": "drill", "target": t, "op": op, "version": version})
+    for version in (2.0, 2.1):
+        for read_first in (True, False):
+            for same_object in (True, False):
+                cases.append({"kind": "drill-types", "version": version, "read_first": read_first, "same_object": same_object})
     return cases
+
+
+def run_drill_types(case, rec):
+    """Removing an unrelated object must not touch the types that stored (possibly not yet loaded) drillhole data refer to,
+    also when the workspace object went through close() / open() in between."""
+    import tempfile
+    import warnings
+
+    import numpy as np
+    from geoh5py.groups import DrillholeGroup
+    from geoh5py.objects import Drillhole, Points
+    from geoh5py.workspace import Workspace
+
+    warnings.simplefilter("ignore")
+    d = tempfile.mkdtemp(prefix="gvm_")
+    path = os.path.join(d, f"dt_{os.getpid()}.geoh5")
+    where = f"drill-types:{'same-object' if case['same_object'] else 'new-object'}:{'read-first' if case['read_first'] else 'lazy'}"
+    try:
+        ws = Workspace.create(path, version=case["version"])
+        grp = DrillholeGroup.create(ws, name="DH")
+        for i in range(2):
+            h = Drillhole.create(ws, parent=grp, name=f"hole{i}", collar=[float(i), 0.0, 0.0], surveys=np.array([[0.0, 0.0, -90.0], [50.0, 0.0, -90.0]]))
+            h.add_data({"Au": {"depth": np.arange(3.0) + 0.5, "values": np.arange(3.0) + 10 * i}, "Lith": {"depth": np.arange(3.0) + 0.5, "values": np.array(["a", "b", "c"]), "type": "text"}}, property_group="assay")
+        pts = Points.create(ws, vertices=np.zeros((4, 3)), name="scratch")
+        pts.add_data({"junk": {"values": np.arange(4.0)}})
+        del h, grp, pts
+        ws.close()
+        dig0 = snap.node_digests(snap.raw_snapshot(path))
+        ws = Workspace(path, mode="r+")
+        if case["read_first"]:
+            for h in ws.get_entity("DH")[0].children:
+                for nm in h.get_data_list():
+                    _ = h.get_data(nm)[0].values
+            h = None
+        if case["same_object"]:
+            ws.close()
+            ws.open()
+        else:
+            ws.close()
+            ws = Workspace(path, mode="r+")
+        gc.collect()
+        victim = ws.get_entity("scratch")[0]
+        kids = {"Objects/{" + str(victim.uid) + "}"} | {"Data/{" + str(c.uid) + "}" for c in victim.children}
+        ktypes = {"Types/Data types/{" + str(c.entity_type.uid) + "}" for c in victim.children if hasattr(c, "entity_type")} | {"Types/Object types/{" + str(victim.entity_type.uid) + "}"}
+        ws.remove_entity(victim)
+        del victim
+        gc.collect()
+        _ = ws.types, ws.data, ws.objects
+        gc.collect()
+        ws.close()
+        rec.see("bracketed-ops")
+        rec.see("drill-type-cases")
+        dig1 = snap.node_digests(snap.raw_snapshot(path))
+        for p_, dg in dig0.items():
+            if p_ in kids or p_ in ktypes or p_ == "<project>":
+                continue
+            rec.evals["C09.collateral"] += 1
+            if p_ not in dig1:
+                rec.fail("C09.collateral", op=where, cls=p_.split("/")[0] if not p_.startswith("Types/") else "type", attr="node-deleted", detail=f"removing the scratch points deleted {p_}", counted=True)
+            elif dig1[p_]["content"] != dg["content"]:
+                rec.fail("C09.collateral", op=where, cls=p_.split("/")[0] if not p_.startswith("Types/") else "type", attr="content", detail=f"removing the scratch points changed {p_}", counted=True)
+        with Workspace(path, mode="r") as fresh:
+            for h in fresh.get_entity("DH")[0].children:
+                for nm, exp in (("Au", 3), ("Lith", 3)):
+                    try:
+                        v = h.get_data(nm)[0].values
+                        ok = v is not None and len(v) == exp
+                    except Exception as exc:  # noqa: BLE001
+                        ok, v = False, f"<raises {type(exc).__name__}: {exc}>"
+                    rec.check("C09.collateral", ok, op=where, cls="ConcatenatedData", attr="unreadable-afterwards", detail=f"{h.name}.{nm} after the unrelated removal: {v}")
+        rec.nontrivial = True
+        rec.shape = ["drill-types", case["version"], case["read_first"], case["same_object"]]
+        rec.sample = {"profile": "drill-types", "where": where}
+    finally:
+        try:
+            ws.close()
+        except Exception:  # noqa: BLE001
+            pass
+        shutil.rmtree(d, ignore_errors=True)
+        gc.collect()
 
 
 DRILL_OPS = ["update", "update-longer", "add-data", "remove-data", "rename-data", "remove-hole", "new-table", "flag"]
@@ -318,6 +402,8 @@ def noop_checks(rec, path):
 def run_case(case, rec):
     if case["kind"] == "drill":
         return run_drill(case, rec)
+    if case["kind"] == "drill-types":
+        return run_drill_types(case, rec)
     rng = random.Random(case["seed"])
     mon = C09Monitor()
 
